@@ -48,7 +48,7 @@ func C10(tier string) int {
 	domSets := []string{"112102", "122011"}
 	maxLen, sample := 5, 260
 	if tier == "thorough" {
-		maxLen, sample = 6, 0
+		maxLen, sample = 6, 6000
 		domSets = []string{"112102", "122011", "002221"}
 	}
 	var cfgs []Config
